@@ -77,6 +77,8 @@ def assign_contents(r, entries):
         k = r.random()
         if k < 0.45 or not _pool:
             e.method = r.choice([b"-lh0-", b"-lz4-", b"-pm0-"])
+            if r.random() < 0.3 and e.mtime > 100000 and b"/" not in e.path[-64:].split(b"/")[-1]:
+                macbinary_member(r, e)
             comp[id(e)] = e.data
         else:
             meth = r.choice(sorted(_pool))
@@ -85,6 +87,43 @@ def assign_contents(r, entries):
             e.data = data
             comp[id(e)] = c
     return comp
+
+
+MAC_TIME_OFFSET = 2082844800
+
+
+def macbinary_member(r, e):
+    """turn file entry `e` into a MacLHA member: 128-byte MacBinary header + data fork + resource fork, padded to 128"""
+    name = e.path.split(b"/")[-1][:63]
+    kind = r.choice(["both", "data", "res", "empty", "decoy-name", "decoy-time", "decoy-len"])
+    dl = 0 if kind in ("res", "empty") else r.choice([1, 100, 127, 128, 129, 300])
+    rl = 0 if kind in ("data", "empty") else r.choice([1, 100, 127, 128, 129])
+    data = bytes(r.randrange(256) for _ in range(dl))
+    res = bytes(r.randrange(256) for _ in range(rl))
+    h = bytearray(128)
+    h[1] = len(name)
+    h[2:2 + len(name)] = name
+    h[0x41:0x49] = b"TEXTttxt"
+    h[0x53:0x57] = dl.to_bytes(4, "big")
+    h[0x57:0x5b] = rl.to_bytes(4, "big")
+    skew = r.choice([0, 1, -1, 14 * 3600, -14 * 3600])
+    if kind == "decoy-time":
+        skew = r.choice([14 * 3600 + 1, -14 * 3600 - 1])
+    h[0x5f:0x63] = ((e.mtime + skew + MAC_TIME_OFFSET) & 0xffffffff).to_bytes(4, "big")
+    if kind == "decoy-name":
+        h[2] ^= 1
+    body = bytes(h) + data + res
+    body += bytes((-len(body)) % 128)
+    if kind == "decoy-len":
+        body += bytes(128)
+    e.os_type, e.level, e.method = 0x6d, 2, b"-lh0-"
+    e.data = body
+    e.visible = body if kind.startswith("decoy") else (data if dl > 0 else res)
+    return kind
+
+
+def vis(e):
+    return getattr(e, "visible", e.data)
 
 
 def encode_archive(entries, comp):
@@ -208,7 +247,7 @@ def expected_tree(entries, opts, filters, pre, answers):
             parents(path)
             stamp_parent(path)
             mode = (e.perms & 0o7777) if e.perms is not None else 0o600
-            tree[k] = "f%o,%s,%d,%04x" % (mode, str(e.mtime) if e.mtime else "NOW", len(e.data), E.crc16(e.data))
+            tree[k] = "f%o,%s,%d,%04x" % (mode, str(e.mtime) if e.mtime else "NOW", len(vis(e)), E.crc16(vis(e)))
     for k, d in finals:
         if k in tree and tree[k].startswith("d"):
             tree[k] = d
@@ -232,7 +271,7 @@ def expected_print(entries, opts, filters):
         if e.kind == "file":
             if not quiet2:
                 out += b"::::::::\n" + path + b"\n::::::::\n"
-            out += e.data
+            out += vis(e)
         elif e.kind == "link" and not quiet2:
             out += b"Symbolic Link " + path + b" -> " + e.target + b"\n"
     return out
@@ -303,8 +342,12 @@ def gen_cases(ctx, n):
                 elif kk < 0.8:
                     j = r.randrange(len(nm))
                     pats.append(nm[:j] + b"?" + nm[j + 1:])
-                else:
+                elif kk < 0.87:
                     pats.append(b"*" + nm[r.randrange(len(nm)):])
+                else:
+                    j = r.randrange(len(nm) + 1)
+                    pats.append(r.choice([nm[:j] + b"**", nm + b"**", nm + b"***", b"**", nm[:j] + b"*?", nm[:j] + b"?*",
+                                          nm[:j] + b"*" + nm[j:], nm[:j] + b"**" + nm[j:], b"?" * len(nm), b"?" * len(nm) + b"*?"]))
             filters = pats
             opts = ["f"]
         elif k < 0.9:
@@ -335,6 +378,8 @@ def gen_cases(ctx, n):
         if pre:
             tags.add("pre-existing")
         tags |= {"m=" + e.method.decode() for e in ents if e.kind == "file"}
+        if any(hasattr(e, "visible") for e in ents):
+            tags.add("macbinary")
         out.append(Case(key, tags=tags, note="nt" if nd >= 1 and nf >= 2 else ""))
     return out
 
@@ -344,7 +389,72 @@ def prepare(ctx, env):
     if lha is None:
         return "lha tool: " + err
     env["lha"] = lha
+    vh, err = core.build_vh(ctx, ["tool"])
+    if vh is None:
+        return "harness (src/filter.c): " + err
+    env["vh"] = vh
     return None
+
+
+GLOB_ALPH = b"ab*?/."
+
+
+def glob_cases(r, n):
+    """(pattern, string) pairs: exhaustive short ones over a small alphabet + random longer ones"""
+    import itertools
+    out = []
+    pats = [bytes(t) for k in range(0, 4) for t in itertools.product(b"a*?", repeat=k)]
+    strs = [bytes(t) for k in range(0, 4) for t in itertools.product(b"ab", repeat=k)]
+    for p in pats:
+        for s_ in strs:
+            out.append((p, s_))
+    for _ in range(n):
+        s_ = bytes(r.choice(b"ab/.") for _ in range(r.randrange(0, 12)))
+        k = r.random()
+        if k < 0.5:      # derive the pattern from the string: mostly matching
+            p = bytearray()
+            for ch in s_:
+                kk = r.random()
+                if kk < 0.15:
+                    p += b"?"
+                elif kk < 0.3:
+                    p += b"*" * r.choice([1, 1, 2, 3])
+                    if r.random() < 0.5:
+                        p.append(ch)
+                elif kk < 0.35:
+                    pass
+                else:
+                    p.append(ch)
+            p += b"*" * r.choice([0, 0, 0, 1, 2, 3])
+            p = bytes(p)
+        else:
+            p = bytes(r.choice(GLOB_ALPH) for _ in range(r.randrange(0, 9)))
+        out.append((p, s_))
+    return out
+
+
+def run_globs(ctx, env, pairs):
+    """three-way: match_glob (C) = matchGlob (model) = GlobSpec (specification) = glob_match (oracle)"""
+    ops = ["globm %s %s" % (hx(p), hx(s_)) for p, s_ in pairs]
+    c_out, _ = core.run_lines_parallel([env["vh"], "20"], ops)
+    m_out, _ = core.run_lines_parallel([env["lhv"]], ops) if env.get("lhv") else (None, None)
+    s_out, _ = core.run_lines_parallel([env["lhv"]], ["globs %s %s" % (hx(p), hx(s_)) for p, s_ in pairs]) if env.get("lhv") else (None, None)
+    conc, corr = [], []
+    for i, (p, s_) in enumerate(pairs):
+        want = "1" if glob_match(p, s_) else "0"
+        rec = {"op": ops[i], "c_out": c_out[i], "tags": ["glob"], "desc": "pattern %r string %r" % (p, s_), "opts": [], "filters": [p.decode("latin1")]}
+        if s_out is not None:
+            rec["spec_out"] = s_out[i]
+            rec["model_out"] = m_out[i]
+        if c_out[i] != want or (s_out is not None and s_out[i] != want):
+            rec["why"] = "wildcard %r %s %r: match_glob says %s, the glob semantics ('*' any run, '?' one byte) say %s" % (
+                p, "vs", s_, c_out[i], want)
+            rec["sig"] = "glob-semantics"
+            conc.append(rec)
+        elif m_out is not None and m_out[i] != c_out[i]:
+            rec["why"] = "model and implementation disagree"
+            corr.append(rec)
+    return conc, corr
 
 
 def run_case(ctx, env, c):
@@ -393,6 +503,13 @@ def evaluate(ctx, env, cases, with_model):
     if env.get("lhv") and with_model:
         mo, _ = core.run_lines_parallel([env["lhv"]], [r["model_op"] for r in rs])
         mouts = dict(enumerate(mo))
+    gpairs = glob_cases(ctx.rng, 4000 if ctx.tier == "quick" else 100000) if env.get("vh") else []
+    if gpairs:
+        gc, gr = run_globs(ctx, env if with_model else {**env, "lhv": env.get("lhv")}, gpairs)
+        conc += gc
+        corr += gr
+        ctx.dist["glob-pairs"] += len(gpairs)
+        ctx.dist["glob-matching"] += sum(1 for p, s_ in gpairs if glob_match(p, s_))
     for i, (c, r) in enumerate(zip(cases, rs)):
         rec = {"op": r["model_op"][:6000], "c_out": r["c_out"][:3000], "tags": sorted(c.tags), "stderr": r["stderr"],
                "desc": repr(_cases[c.op]["ents"])[:1500], "opts": _cases[c.op]["opts"], "filters": [f.decode("latin1") for f in _cases[c.op]["filters"]]}
@@ -413,7 +530,7 @@ def evaluate(ctx, env, cases, with_model):
             if not ok:
                 rec["why"] = "model and implementation disagree"
                 corr.append(rec)
-    return conc, corr, {"evaluations": len(cases)}
+    return conc, corr, {"evaluations": len(cases) + len(gpairs)}
 
 
 def case_from_replay(rec):
